@@ -442,15 +442,15 @@ fn collect_runtime_types(
             }
             // Type definitions are emitted whether or not a function uses them, so the
             // helper types their fields mention need a declaration too.
-            for (name, def) in goenv.structs() {
-                if struct_def_is_emitted(name, def) {
+            for (_, def) in goenv.structs() {
+                if struct_def_is_emitted(def) {
                     for (_, ty) in &def.fields {
                         self.collect_type(ty);
                     }
                 }
             }
-            for (name, def) in goenv.enums() {
-                if enum_def_is_emitted(name, def) {
+            for (_, def) in goenv.enums() {
+                if enum_def_is_emitted(def) {
                     for (_, fields) in &def.variants {
                         for ty in fields {
                             self.collect_type(ty);
@@ -639,9 +639,8 @@ fn collect_runtime_types(
     .collect_file(goenv, file)
 }
 
-fn struct_def_is_emitted(name: &TastIdent, def: &StructDef) -> bool {
-    let has_type_param = name.0.contains("TParam")
-        || !def.generics.is_empty()
+fn struct_def_is_emitted(def: &StructDef) -> bool {
+    let has_type_param = !def.generics.is_empty()
         || def
             .fields
             .iter()
@@ -649,13 +648,12 @@ fn struct_def_is_emitted(name: &TastIdent, def: &StructDef) -> bool {
     !has_type_param
 }
 
-fn enum_def_is_emitted(name: &TastIdent, def: &EnumDef) -> bool {
+fn enum_def_is_emitted(def: &EnumDef) -> bool {
     // Skip generating Go types for generic-specialized enums whose fields still contain type parameters
-    let has_type_param = name.0.contains("TParam")
-        || def
-            .variants
-            .iter()
-            .any(|(_, fields)| fields.iter().any(|f| matches!(f, tast::Ty::TParam { .. })));
+    let has_type_param = def
+        .variants
+        .iter()
+        .any(|(_, fields)| fields.iter().any(|f| matches!(f, tast::Ty::TParam { .. })));
     !has_type_param
 }
 
@@ -2572,7 +2570,7 @@ pub fn go_file(
 fn gen_type_definition(goenv: &GlobalGoEnv) -> Vec<goast::Item> {
     let mut defs = Vec::new();
     for (name, def) in goenv.structs() {
-        if !struct_def_is_emitted(name, def) {
+        if !struct_def_is_emitted(def) {
             continue;
         }
 
@@ -2592,7 +2590,7 @@ fn gen_type_definition(goenv: &GlobalGoEnv) -> Vec<goast::Item> {
     }
 
     for (name, def) in goenv.enums() {
-        if !enum_def_is_emitted(name, def) {
+        if !enum_def_is_emitted(def) {
             continue;
         }
         let type_identifier_method = format!("is{}", go_ident(&name.0));
